@@ -266,6 +266,7 @@ type nodeInfoSpec struct {
 
 func (s nodeInfoSpec) encode() []byte {
 	var b bytes.Buffer
+	b.WriteByte(1) // non-nil *NodeInfo
 	b.WriteByte(s.PubKeyType)
 	if s.PubKeyType != 0 {
 		b.Write(s.PubKey)
@@ -285,6 +286,7 @@ func (s nodeInfoSpec) encode() []byte {
 
 func exchangeDataBytes(genesis []byte) []byte {
 	var b bytes.Buffer
+	b.WriteByte(1) // non-nil *ExchangeData
 	wBytes(&b, genesis)
 	return b.Bytes()
 }
